@@ -19,7 +19,7 @@ import p_memory
 
 VERIF = os.path.dirname(os.path.dirname(os.path.abspath(__file__)))
 
-MIN_CONSTEXPR_IFS = 16
+MIN_CONSTEXPR_IFS = 11      # 16 on the pinned tree; the usual 70% floor (a clean-up may merge duplicated `if constexpr` sites)
 
 DEFAULT_TRUSTED_BASE = [
     'clang 14 front end: template instantiation, overload resolution, constant evaluation and clang::CFG construction',
